@@ -86,7 +86,11 @@ func main() {
 		r := NewRand(seed*0x9E3779B97F4A7C15 + hashStr(id))
 		cases := append([]string{}, p.Corpus...)
 		// corpus files: /verif/corpus/<id>/*.case, one case per line
-		if files, _ := filepath.Glob(filepath.Join(filepath.Dir(dir), "..", "corpus", id, "*.case")); len(files) > 0 {
+		root := os.Getenv("VERIF_ROOT")
+		if root == "" {
+			root = "/verif"
+		}
+		if files, _ := filepath.Glob(filepath.Join(root, "corpus", id, "*.case")); len(files) > 0 {
 			sort.Strings(files)
 			for _, f := range files {
 				b, _ := os.ReadFile(f)
